@@ -147,6 +147,11 @@ def generate(rng, tier):
     psel = dict(p, levelmax=max(c["level"] for c in leaves) + 1) if tall else p  # (boxes on the scale of the populated levels)
     sels = [gen_selection(rng, psel, leaves) for _ in range(rng.choice([1, 2, 3]) if not tall else 4)]
     if tall:
+        # one box far narrower than any populated cell (a few finest-level cells of the info file wide) around the centre of a leaf
+        cell = rng.choice(leaves)
+        hw = 2.0 ** -rng.choice([17, 19, 20, p["levelmax"] - 1])
+        sels[3] = {"intervals": [{"var": "position_" + c, "lo": cell["pos"][d] / p["boxlen"] - hw * rng.uniform(0.6, 1.0), "hi": cell["pos"][d] / p["boxlen"] + hw * rng.uniform(0.6, 1.0),
+                                  "lo_closed": False, "hi_closed": False} for d, c in enumerate("xyz")], "values": [], "cpu_list": None}
         # half of the boxes near the end of the Hilbert curve (x high, y and z low), where the keys are largest
         for s_ in sels[:2]:
             if len(s_["intervals"]) == 3 and all(i_["lo"] is not None and i_["hi"] is not None for i_ in s_["intervals"]):
